@@ -97,6 +97,11 @@ Pull(stages, s, k) ==
                     IN IF p.it[1] = "item" \/ p.it[1] # "end" THEN p
                        ELSE Pull(stages, SetSt(p.s, k, [p.s.st[k] EXCEPT !.flag = TRUE]), k)
                ELSE IF me.r < Len(extra) THEN PR(SetSt(s, k, [me EXCEPT !.r = @ + 1]), Item(extra[me.r + 1])) ELSE PR(s, End)
+      [] f = "prepend" ->
+            \* a constant list in front of the stream (`[7, 8].concat(stream)`, `[7, 8] + stream`): its items first, then upstream -
+            \* nothing is pulled from upstream before the constant items are used up
+            LET extra == a[1][2][2]
+            IN IF me.r < Len(extra) THEN PR(SetSt(s, k, [me EXCEPT !.r = @ + 1]), Item(extra[me.r + 1])) ELSE up(s)
       [] f = "distinct" ->
             LET p == up(s)
             IN IF p.it[1] # "item" THEN p
